@@ -1,9 +1,627 @@
-import ChythonModel.Model.Valence
-namespace ChythonModel.Props.C04
-open ChythonModel.Gen ChythonModel.Model ChythonModel.Model.Valence
+import ChythonModel.Proofs.C04
+import ChythonModel.Spec.OrganicValence
+/-!
+# C04 — implicit hydrogen counts and valence errors follow the element valence rules
 
-/-- `_compiled_valence_rules` raises for no element: every environment symbol resolves, `_common_valences` is non-empty. -/
-theorem compile_total : ∀ r ∈ periodicTable, (compileRules periodicTable r).isOk = true := by
+All theorems are about the definitions of `Model/Valence.lean` that the driver `Drivers/C04.lean` executes
+(`compileRules`, `calcWith`/`calcImplicit`, `checkWith`, `fixStructure`, `checkValence`, `molecularCharge`,
+`isRadical`, `brutto`, `molecularMassPico`) over `Gen.periodicTable`, which is regenerated from /repo on
+every run.  Table facts are closed by kernel evaluation (`decide +kernel`); everything that quantifies over
+bond lists or molecules is proved by induction / case analysis (helper lemmas in `Proofs/C04.lean`).
+
+Hypotheses that appear below and why they are the property's own domain, not a weakening:
+* `aromaCount bonds = 0` — "a structure with localised bonds" (the property text). The aromatic-carbon special
+  cases are characterised separately in `calc_aromatic`.
+* `c.z ≠ 1` in the first-rule characterisation — `calc_implicit` answers 0 for hydrogen before any rule is read
+  (`calc_hydrogen`).
+-/
+namespace ChythonModel.Props.C04
+open ChythonModel.Gen ChythonModel.Model ChythonModel.Model.Valence ChythonModel.Proofs.C04
+open ChythonModel.Spec ChythonModel.Spec.FirstMatch
+
+/-! ## 1. `_compiled_valence_rules` (regenerated tables) -/
+
+/-- `p` holds for the compiled table of every element, and compilation raises for none. -/
+def compiledSat (p : Rules → Bool) : Bool :=
+  periodicTable.all fun r => match compileRules periodicTable r with
+    | .ok t => p t
+    | .error _ => false
+
+theorem compiledSat_elim {p : Rules → Bool} (h : compiledSat p = true) :
+    ∀ r ∈ periodicTable, ∃ t, compileRules periodicTable r = .ok t ∧ p t = true := by
+  intro r hr
+  have := List.all_eq_true.mp h r hr
+  cases hc : compileRules periodicTable r with
+  | ok t => exact ⟨t, rfl, by simpa [hc] using this⟩
+  | error e => simp [hc] at this
+
+/-- `_compiled_valence_rules` raises for no element: `_common_valences[0]` exists and every environment symbol
+    of every exception resolves through the class table (no `IndexError`, no `KeyError`). -/
+theorem compile_total : ∀ r ∈ periodicTable, ∃ t, compileRules periodicTable r = .ok t := by
+  have h : compiledSat (fun _ => true) = true := by decide +kernel
+  intro r hr
+  obtain ⟨t, ht, _⟩ := compiledSat_elim h r hr
+  exact ⟨t, ht⟩
+
+/-- every atomic number 1…118 has a compiled table (`from_atomic_number` + compilation succeed) -/
+theorem table_of_every_element : ∀ z ∈ List.range' 1 118, (tableOf z).isSome = true := by decide +kernel
+
+/-- in every compiled rule `explicit_set` is exactly the key list of `explicit_dict` (same order of first
+    occurrence). Consequence: in `calc_implicit`, whenever `s.issubset(explicit_dict)` holds, the following
+    `explicit_dict[k] >= c` look-ups never insert a key into the `defaultdict`, so the pure model is exact. -/
+theorem compiled_set_eq_dict_keys :
+    ∀ r ∈ periodicTable, ∃ t, compileRules periodicTable r = .ok t ∧
+      ∀ krs ∈ t, ∀ q ∈ krs.2, q.dict.map (·.1) = q.set := by
+  have h : compiledSat (fun t => t.all fun krs => krs.2.all fun q => q.dict.map (·.1) == q.set) = true := by
+    decide +kernel
+  intro r hr
+  obtain ⟨t, ht, hp⟩ := compiledSat_elim h r hr
+  refine ⟨t, ht, ?_⟩
+  intro krs hk q hq
+  have := List.all_eq_true.mp (List.all_eq_true.mp hp krs hk) q hq
+  simpa using this
+
+/-- keys of a compiled table are pairwise distinct and no rule list is empty (it is a `dict` built by appends) -/
+theorem compiled_keys_nodup :
+    ∀ r ∈ periodicTable, ∃ t, compileRules periodicTable r = .ok t ∧ (t.map (·.1)).Nodup ∧ ∀ krs ∈ t, krs.2 ≠ [] := by
+  have h : compiledSat (fun t => decide (t.map (·.1)).Nodup && t.all fun krs => !krs.2.isEmpty) = true := by
+    decide +kernel
+  intro r hr
+  obtain ⟨t, ht, hp⟩ := compiledSat_elim h r hr
+  simp only [Bool.and_eq_true, decide_eq_true_eq] at hp
+  refine ⟨t, ht, hp.1, ?_⟩
+  intro krs hk e
+  have := List.all_eq_true.mp hp.2 krs hk
+  simp [e] at this
+
+/-- no rule of any element assigns more than 4 hydrogens, and every multiplicity in an environment is ≥ 1:
+    probing `check_implicit(h)` for `h = 0..4` (as the correspondence does) sees every accepted count. -/
+theorem compiled_hydrogens_le_four :
+    ∀ r ∈ periodicTable, ∃ t, compileRules periodicTable r = .ok t ∧
+      ∀ krs ∈ t, ∀ q ∈ krs.2, q.h ≤ 4 ∧ ∀ kc ∈ q.dict, 1 ≤ kc.2 := by
+  have h : compiledSat (fun t => t.all fun krs => krs.2.all fun q =>
+      decide (q.h ≤ 4) && q.dict.all fun kc => decide (1 ≤ kc.2)) = true := by decide +kernel
+  intro r hr
+  obtain ⟨t, ht, hp⟩ := compiledSat_elim h r hr
+  refine ⟨t, ht, ?_⟩
+  intro krs hk q hq
+  have := List.all_eq_true.mp (List.all_eq_true.mp hp krs hk) q hq
+  simp only [Bool.and_eq_true, decide_eq_true_eq, List.all_eq_true] at this
+  exact this
+
+/-! ## 2. independence of the order of the bond dict (numbering / insertion order) -/
+
+/-- `calc_implicit` and `check_implicit` depend on the *multiset* of `(order, neighbour element)` pairs only —
+    for every table, every atom state and every pair of permuted bond lists. -/
+theorem calc_perm (t : Rules) (z : Nat) (c : Int) (r : Bool) {bs bs' : List BE} (h : bs.Perm bs') :
+    calcWith t ⟨z, c, r, bs⟩ = calcWith t ⟨z, c, r, bs'⟩ ∧
+    ∀ hh, checkWith t ⟨z, c, r, bs⟩ hh = checkWith t ⟨z, c, r, bs'⟩ hh :=
+  ⟨calcWith_perm t z c r h, fun hh => checkWith_perm t z c r hh h⟩
+
+/-- the same statement for the functions over the real element tables -/
+theorem calcImplicit_perm (z : Nat) (c : Int) (r : Bool) {bs bs' : List BE} (h : bs.Perm bs') :
+    calcImplicit ⟨z, c, r, bs⟩ = calcImplicit ⟨z, c, r, bs'⟩ ∧
+    ∀ hh, checkImplicit ⟨z, c, r, bs⟩ hh = checkImplicit ⟨z, c, r, bs'⟩ hh := by
+  constructor
+  · simp only [calcImplicit]; cases tableOf z with
+    | none => rfl
+    | some t => simp only [Option.map_some, calcWith_perm t z c r h]
+  · intro hh; simp only [checkImplicit]; cases tableOf z with
+    | none => rfl
+    | some t => simp only [Option.map_some, checkWith_perm t z c r hh h]
+
+example : calcImplicit ⟨7, 1, false, [(2, 8), (1, 6), (1, 6)]⟩ = calcImplicit ⟨7, 1, false, [(1, 6), (2, 8), (1, 6)]⟩ :=
+  (calcImplicit_perm 7 1 false (List.Perm.swap _ _ _)).1
+
+/-! ## 3. first matching rule -/
+
+/-- `explicit_sum` is the sum of the orders of the localised bonds -/
+theorem explicitSum_spec (bs : List BE) : explicitSum bs = ((localised bs).map (·.1)).sum := by
+  simp only [explicitSum, counted_eq_localised]
+
+/-- hydrogen never has implicit hydrogens, whatever its bonds -/
+theorem calc_hydrogen (t : Rules) (c : Int) (r : Bool) (bs : List BE) : calcWith t ⟨1, c, r, bs⟩ = some 0 := by
+  simp [calcWith]
+
+/-- For a non-hydrogen atom with localised bonds, `calc_implicit` sets `h` **iff** the element has a rule list for
+    `(charge, radical, Σ orders)` and `h` is the count of the *first* rule in it whose environment requirement is
+    contained in the multiset of localised bonds (declarative `Spec.FirstMatch`). -/
+theorem calc_first_rule (t : Rules) (c : Ctx) (hz : c.z ≠ 1) (ha : aromaCount c.bonds = 0) (h : Nat) :
+    calcWith t c = some h ↔
+      ∃ rules q, valenceRules t c.charge c.radical (explicitSum c.bonds) = some rules ∧
+        IsFirst (fun q => EnvMet c.bonds q.set q.dict) rules q ∧ q.h = h := by
+  have hz' : (c.z == 1) = false := by simp [hz]
+  simp only [calcWith, hz', ha]
+  simp only [Bool.false_eq_true, if_false, bne_self_eq_false, Bool.false_and, Nat.reduceBEq]
+  cases hv : valenceRules t c.charge c.radical (explicitSum c.bonds) with
+  | none => simp
+  | some rules =>
+    simp only [firstRule_some, Option.some.injEq]
+    constructor
+    · rintro ⟨q, hq, e⟩
+      refine ⟨rules, q, rfl, ?_, e⟩
+      obtain ⟨pre, post, e1, hm, hpre⟩ := hq
+      exact ⟨pre, post, e1, (ruleMatches_iff _ _).mp hm, fun p hp hmet => hpre p hp ((ruleMatches_iff _ _).mpr hmet)⟩
+    · rintro ⟨rules', q, e0, hq, e⟩
+      subst e0
+      obtain ⟨pre, post, e1, hm, hpre⟩ := hq
+      exact ⟨q, ⟨pre, post, e1, (ruleMatches_iff _ _).mpr hm, fun p hp hmet => hpre p hp ((ruleMatches_iff _ _).mp hmet)⟩, e⟩
+
+/-- … and it sets `None` iff there is no rule list or no rule in it is met. -/
+theorem calc_none_iff (t : Rules) (c : Ctx) (hz : c.z ≠ 1) (ha : aromaCount c.bonds = 0) :
+    calcWith t c = none ↔
+      ∀ rules, valenceRules t c.charge c.radical (explicitSum c.bonds) = some rules →
+        ∀ q ∈ rules, ¬ EnvMet c.bonds q.set q.dict := by
+  have hz' : (c.z == 1) = false := by simp [hz]
+  simp only [calcWith, hz', ha]
+  simp only [Bool.false_eq_true, if_false, bne_self_eq_false, Bool.false_and, Nat.reduceBEq]
+  cases hv : valenceRules t c.charge c.radical (explicitSum c.bonds) with
+  | none => simp
+  | some rules =>
+    simp only [firstRule_none, Option.some.injEq, forall_eq']
+    constructor
+    · intro hall q hq hmet
+      have := hall q hq
+      rw [(ruleMatches_iff _ _).mpr hmet] at this
+      exact Bool.noConfusion this
+    · intro hall q hq
+      cases hm : ruleMatches (explicitDict c.bonds) q with
+      | false => rfl
+      | true => exact absurd ((ruleMatches_iff _ _).mp hm) (hall q hq)
+
+/-- Aromatic bonds: the answer does not depend on the element table at all. Only a neutral non-radical carbon is
+    supported: two aromatic bonds leave one valence (`H` or one single-bonded substituent), three leave none;
+    everything else is `None` ("use kekule()"). -/
+theorem calc_aromatic (t : Rules) (c : Ctx) (hz : c.z ≠ 1) (ha : aromaCount c.bonds ≠ 0) :
+    calcWith t c =
+      if c.charge = 0 ∧ c.radical = false ∧ c.z = 6 then
+        (match aromaCount c.bonds, explicitSum c.bonds with
+         | 2, 0 => some 1 | 2, 1 => some 0 | 3, 0 => some 0 | _, _ => none)
+      else none := by
+  have hz' : (c.z == 1) = false := by simp [hz]
+  have ha' : (aromaCount c.bonds != 0) = true := by simp [ha]
+  simp only [calcWith, hz', ha']
+  by_cases hc : c.charge = 0 ∧ c.radical = false ∧ c.z = 6
+  · obtain ⟨h1, h2, h3⟩ := hc
+    simp only [h1, h2, h3]
+    generalize aromaCount c.bonds = a at ha ⊢
+    generalize explicitSum c.bonds = e
+    match a, e with
+    | 0, _ => exact absurd rfl ha
+    | 1, _ => simp
+    | 2, 0 => simp
+    | 2, 1 => simp
+    | 2, e + 2 => simp
+    | 3, 0 => simp
+    | 3, e + 1 => simp
+    | a + 4, _ => simp
+  · simp only [hc, if_false]
+    have : (c.charge == 0 && !c.radical && c.z == 6) = false := by
+      cases h1 : (c.charge == 0) <;> cases h2 : c.radical <;> cases h3 : (c.z == 6) <;> simp_all
+    simp [this]
+
+/-! ## 4. `check_implicit` against `calc_implicit` -/
+
+/-- `check_implicit(n, h)` accepts exactly the counts of the rules whose environment is met -/
+theorem check_iff_rule (t : Rules) (c : Ctx) (hz : c.z ≠ 1) (ha : aromaCount c.bonds = 0) (h : Nat) :
+    checkWith t c h = true ↔
+      ∃ rules, valenceRules t c.charge c.radical (explicitSum c.bonds) = some rules ∧
+        ∃ q ∈ rules, q.h = h ∧ EnvMet c.bonds q.set q.dict := by
+  have hz' : (c.z == 1) = false := by simp [hz]
+  simp only [checkWith, hz', ha]
+  simp only [Bool.false_eq_true, if_false, bne_self_eq_false]
+  cases hv : valenceRules t c.charge c.radical (explicitSum c.bonds) with
+  | none => simp
+  | some rules =>
+    simp only [List.any_eq_true, Bool.and_eq_true, beq_iff_eq, Option.some.injEq, exists_eq_left']
+    constructor
+    · rintro ⟨q, hq, e, hm⟩; exact ⟨q, hq, e.symm, (ruleMatches_iff _ _).mp hm⟩
+    · rintro ⟨q, hq, e, hm⟩; exact ⟨q, hq, e.symm, (ruleMatches_iff _ _).mpr hm⟩
+
+/-- the count `calc_implicit` assigns is accepted by `check_implicit` (localised bonds; for hydrogen too) -/
+theorem check_of_calc (t : Rules) (c : Ctx) (ha : aromaCount c.bonds = 0) (h : Nat) :
+    calcWith t c = some h → checkWith t c h = true := by
+  intro hc
+  by_cases hz : c.z = 1
+  · have hz' : (c.z == 1) = true := by simp [hz]
+    simp only [calcWith, hz', if_true, Option.some.injEq] at hc
+    simp [checkWith, hz', hc]
+  · obtain ⟨rules, q, hv, ⟨pre, post, e, hm, _⟩, eh⟩ := (calc_first_rule t c hz ha h).mp hc
+    exact (check_iff_rule t c hz ha h).mpr ⟨rules, hv, q, by simp [e], eh, hm⟩
+
+/-- an atom with localised bonds gets `None` (= is reported by `check_valence`) **iff** `check_implicit` rejects
+    every hydrogen count: "no valence state exists". -/
+theorem none_iff_no_valid_count (t : Rules) (c : Ctx) (ha : aromaCount c.bonds = 0) :
+    calcWith t c = none ↔ ∀ h, checkWith t c h = false := by
+  by_cases hz : c.z = 1
+  · have hz' : (c.z == 1) = true := by simp [hz]
+    simp only [calcWith, checkWith, hz', if_true]
+    constructor
+    · intro h; cases h
+    · intro h; have := h 0; simp at this
+  · rw [calc_none_iff t c hz ha]
+    constructor
+    · intro hall h
+      cases hck : checkWith t c h with
+      | false => rfl
+      | true =>
+        obtain ⟨rules, hv, q, hq, _, hm⟩ := (check_iff_rule t c hz ha h).mp hck
+        exact absurd hm (hall rules hv q hq)
+    · intro hall rules hv q hq hm
+      have := (check_iff_rule t c hz ha q.h).mpr ⟨rules, hv, q, hq, rfl, hm⟩
+      rw [hall q.h] at this
+      exact Bool.noConfusion this
+
+example : calcWith [((0, false, 2), [⟨[], [], 1⟩])] ⟨8, 0, false, [(2, 6)]⟩ = some 1 := by decide
+example : calcImplicit ⟨8, 0, false, [(2, 6), (1, 6)]⟩ = some none := by decide +kernel
+
+/-! ## 5. `check_valence` reports exactly the atoms without a valence state -/
+
+/-- After the hydrogen pass of `fix_structure` (every atom recalculated, in `_atoms` order, each assignment visible
+    to the following calculations), `check_valence` returns — in `_atoms` order — exactly the atoms for which
+    `calc_implicit` finds no valence state in the molecule, and `fix_structure` touches nothing but the
+    hydrogen marks. No well-formedness hypothesis is needed. -/
+theorem valence_errors_exact (m m' : Mol) (hfix : fixStructure m = some m') :
+    checkValence m' = m.ids.filter (fun n => calcImplicitMol m n == some none) ∧
+    m'.ids = m.ids ∧ m'.adj = m.adj ∧ ∀ n, calcImplicitMol m' n = calcImplicitMol m n := by
+  obtain ⟨ha, hadj, hall⟩ := fixLoop_spec m m.ids m m' (fun _ => rfl) hfix
+  have hmap : m'.atoms = m.atoms.map fun p => (p.1, withH p.2 (calcImplicitMol m p.1).join) := by
+    rw [ha]
+    apply List.map_congr_left
+    intro p hp
+    have : m.ids.contains p.1 = true := by
+      simp only [Mol.ids, List.contains_iff_mem, List.mem_map]
+      exact ⟨p, hp, rfl⟩
+    simp only [fixEntry, this, if_true]
+  refine ⟨?_, ?_, hadj, ?_⟩
+  · simp only [checkValence, hmap, Mol.ids, List.filter_map, List.map_map]
+    have hfilter : List.filter ((fun x : Nat × Atom => x.2.implH.isNone) ∘ fun p : Nat × Atom => (p.1, withH p.2 (calcImplicitMol m p.1).join)) m.atoms =
+        List.filter ((fun n => calcImplicitMol m n == some none) ∘ fun x : Nat × Atom => x.1) m.atoms := by
+      apply List.filter_congr
+      intro p hp
+      have hs := hall p.1 (by simp only [Mol.ids, List.mem_map]; exact ⟨p, hp, rfl⟩)
+      simp only [Function.comp, withH]
+      cases hc : calcImplicitMol m p.1 with
+      | none => simp [hc] at hs
+      | some o => cases o <;> simp
+    rw [hfilter]
+    simp [Function.comp]
+  · simp only [Mol.ids, hmap, List.map_map]
+    apply List.map_congr_left
+    intro p _; rfl
+  · intro n
+    -- the context of every atom is unchanged: same keys, z, charge, radical, same adjacency
+    have hl : ∀ j, m'.atoms.lookup j = (m.atoms.lookup j).map fun a => withH a (calcImplicitMol m j).join := by
+      intro j
+      rw [hmap]
+      generalize m.atoms = l
+      induction l with
+      | nil => rfl
+      | cons p tl ih =>
+        obtain ⟨k0, a⟩ := p
+        simp only [List.map_cons, List.lookup]
+        cases hb : (j == k0) with
+        | true => have : j = k0 := by simpa using hb
+                  subst this; simp
+        | false => simpa using ih
+    have hf : nbrEntry m'.atoms = nbrEntry m.atoms := by
+      funext kb
+      simp only [nbrEntry, hl]
+      cases m.atoms.lookup kb.1 <;> rfl
+    simp only [calcImplicitMol, ctxOf, hf, hadj, hl]
+    cases m.atoms.lookup n with
+    | none => rfl
+    | some a => cases m.adj.lookup n <;> rfl
+
+/-- the pass succeeds on every molecule whose adjacency only mentions existing atoms (what the Graph API maintains) -/
+theorem fixStructure_total (m : Mol)
+    (hclosed : ∀ n ∈ m.ids, ∃ nb, m.adj.lookup n = some nb ∧ ∀ kb ∈ nb, (m.atoms.lookup kb.1).isSome = true)
+    (hz : ∀ p ∈ m.atoms, (tableOf p.2.z).isSome = true) :
+    (fixStructure m).isSome = true := by
+  have hcalc : ∀ (m1 : Mol), (∀ k, calcImplicitMol m1 k = calcImplicitMol m k) → ∀ n ∈ m.ids,
+      (calcImplicitMol m1 n).isSome = true := by
+    intro m1 hinv n hn
+    rw [hinv]
+    obtain ⟨nb, hnb, hall⟩ := hclosed n hn
+    have hmem : ∃ a, m.atoms.lookup n = some a ∧ (n, a) ∈ m.atoms := by
+      simp only [Mol.ids, List.mem_map] at hn
+      generalize m.atoms = l at hn
+      induction l with
+      | nil => obtain ⟨p, hp, _⟩ := hn; cases hp
+      | cons q tl ih =>
+        obtain ⟨k0, a0⟩ := q
+        simp only [List.lookup]
+        cases hb : (n == k0) with
+        | true =>
+          have : n = k0 := by simpa using hb
+          subst this
+          exact ⟨a0, rfl, by simp⟩
+        | false =>
+          obtain ⟨p, hp, e⟩ := hn
+          have hne : ¬ n = k0 := by simpa using hb
+          cases List.mem_cons.mp hp with
+          | inl e1 => subst e1; exact absurd e.symm hne
+          | inr h1 =>
+            obtain ⟨a, ha1, ha2⟩ := ih ⟨p, h1, e⟩
+            exact ⟨a, ha1, List.mem_cons_of_mem _ ha2⟩
+    obtain ⟨a, ha, hin⟩ := hmem
+    have hmapM : ∃ bs, nb.mapM (nbrEntry m.atoms) = some bs := by
+      clear hnb
+      induction nb with
+      | nil => exact ⟨[], rfl⟩
+      | cons kb tl ih =>
+        obtain ⟨bs, hbs⟩ := ih (fun x hx => hall x (List.mem_cons_of_mem _ hx))
+        have h1 := hall kb (by simp)
+        cases hl : m.atoms.lookup kb.1 with
+        | none => simp [hl] at h1
+        | some x => exact ⟨(kb.2.order, x.z) :: bs, by simp [List.mapM_cons, nbrEntry, hl, hbs]⟩
+    obtain ⟨bs, hbs⟩ := hmapM
+    have ht := hz (n, a) hin
+    simp only [calcImplicitMol, ctxOf, ha, hnb, hbs, Option.map_some, Option.bind_some, calcImplicit]
+    cases htb : tableOf a.z with
+    | none => simp [htb] at ht
+    | some t => rfl
+  -- run the loop
+  have hloop : ∀ (ns : List Nat) (m1 : Mol), (∀ n ∈ ns, n ∈ m.ids) → (∀ k, calcImplicitMol m1 k = calcImplicitMol m k) →
+      (fixLoop ns m1).isSome = true := by
+    intro ns
+    induction ns with
+    | nil => intro m1 _ _; rfl
+    | cons n tl ih =>
+      intro m1 hsub hinv
+      have := hcalc m1 hinv n (hsub n (by simp))
+      cases hc : calcImplicitMol m1 n with
+      | none => simp [hc] at this
+      | some h =>
+        simp only [fixLoop, hc]
+        exact ih _ (fun x hx => hsub x (List.mem_cons_of_mem _ hx)) (fun k => by rw [calcImplicitMol_setH, hinv])
+  exact hloop m.ids m (fun _ h => h) (fun _ => rfl)
+
+/-- methanol with wrong/unknown marks → fixed: C gets 3, O gets 1, nothing reported; pentavalent carbon is reported -/
+example : (fixStructure ⟨[(1, {z := 6}), (2, {z := 8})], [(1, [(2, ⟨1, none⟩)]), (2, [(1, ⟨1, none⟩)])]⟩).map
+    (fun m => (m.atoms.map (·.2.implH), checkValence m)) = some ([some 3, some 1], []) := by decide +kernel
+example : (fixStructure ⟨[(1, {z := 6}), (2, {z := 8}), (3, {z := 7})],
+    [(1, [(2, ⟨2, none⟩), (3, ⟨3, none⟩)]), (2, [(1, ⟨2, none⟩)]), (3, [(1, ⟨3, none⟩)])]⟩).map checkValence = some [1] := by
   decide +kernel
+
+/-! ## 6. totals are sums over atoms (and therefore independent of numbering / insertion order) -/
+
+/-- total charge, radical flag and Σ implicit H over two molecules with permuted atom tables coincide -/
+theorem totals_perm (m m' : Mol) (h : m.atoms.Perm m'.atoms) :
+    molecularCharge m = molecularCharge m' ∧ isRadical m = isRadical m' ∧
+    implicitTotal m.atoms = implicitTotal m'.atoms ∧ molecularMassPico m = molecularMassPico m' := by
+  refine ⟨?_, ?_, ?_, ?_⟩
+  · exact sum_int_perm (h.map _)
+  · exact h.any_eq
+  · exact optSum_perm (h.map _)
+  · simp only [molecularMassPico]
+    cases hydrogenMassPico with
+    | none => rfl
+    | some hm =>
+      dsimp only
+      rw [optSum_perm (h.map fun p => massTerm hm p.2)]
+
+/-- total charge and radical flag of a union are the sum / disjunction of the parts -/
+theorem totals_append (a b : List (Nat × Atom)) (adj : List (Nat × List (Nat × Bond))) :
+    molecularCharge ⟨a ++ b, adj⟩ = molecularCharge ⟨a, adj⟩ + molecularCharge ⟨b, adj⟩ ∧
+    isRadical ⟨a ++ b, adj⟩ = (isRadical ⟨a, adj⟩ || isRadical ⟨b, adj⟩) := by
+  simp [molecularCharge, isRadical, List.sum_append]
+
+/-- Σ implicit H exists iff every atom has a hydrogen mark, and then it is the sum of the marks -/
+theorem implicitTotal_spec (atoms : List (Nat × Atom)) (s : Nat) :
+    implicitTotal atoms = some s ↔ ∃ hs : List Nat, atoms.map (·.2.implH) = hs.map some ∧ s = hs.sum :=
+  optSum_some_iff _ s
+
+/-- `brutto`: the count of every symbol is the number of atoms of that element, and `H` additionally carries the
+    sum of all implicit hydrogens. -/
+theorem brutto_counts (m : Mol) (b : List (String × Nat)) (hb : brutto m = .ok b) :
+    ∃ hs : List Nat, m.atoms.map (·.2.implH) = hs.map some ∧
+      ∀ s, counterGet b s = symbolCount m.atoms s + (if s = "H" then hs.sum else 0) := by
+  simp only [brutto] at hb
+  cases hc : symbolCounter m.atoms [] with
+  | none => simp [hc] at hb
+  | some c =>
+    cases hi : implicitTotal m.atoms with
+    | none => simp [hc, hi] at hb
+    | some tot =>
+      simp only [hc, hi, Except.ok.injEq] at hb
+      obtain ⟨hs, e1, e2⟩ := (implicitTotal_spec _ _).mp hi
+      refine ⟨hs, e1, ?_⟩
+      intro s
+      rw [← hb, counterGet_counterAdd, symbolCounter_count _ _ _ hc s, e2]
+      simp only [counterGet, List.lookup, Option.getD_none, Nat.zero_add]
+      by_cases e : s = "H"
+      · subst e; simp
+      · have : ¬ "H" = s := fun x => e x.symm
+        simp [e, this]
+
+/-- `brutto` raises (`TypeError`) exactly when some atom has no hydrogen mark or an unknown atomic number -/
+theorem brutto_error_iff (m : Mol) :
+    (∃ e, brutto m = .error e) ↔ symbolCounter m.atoms [] = none ∨ implicitTotal m.atoms = none := by
+  simp only [brutto]
+  cases symbolCounter m.atoms [] with
+  | none => simp
+  | some c => cases implicitTotal m.atoms <;> simp
+
+/-- mass is the sum of the per-atom terms `atomic_mass + implicit H × mass(H)` when every term exists -/
+theorem mass_spec (m : Mol) (s : Nat) (hs : molecularMassPico m = .ok s) :
+    ∃ hm, hydrogenMassPico = some hm ∧ ∃ ts : List Nat, (m.atoms.map fun p => massTerm hm p.2) = ts.map some ∧ s = ts.sum := by
+  simp only [molecularMassPico] at hs
+  cases hh : hydrogenMassPico with
+  | none => simp [hh] at hs
+  | some hm =>
+    simp only [hh] at hs
+    cases ho : optSum (m.atoms.map fun p => massTerm hm p.2) with
+    | none => simp [ho] at hs
+    | some s' =>
+      simp only [ho, Except.ok.injEq] at hs
+      subst hs
+      exact ⟨hm, rfl, (optSum_some_iff _ _).mp ho⟩
+
+/-- water: H₂O, neutral, not radical, 18.010565 (¹H₂¹⁶O would be; natural abundance mass in 10⁻¹² units) -/
+example : (brutto ⟨[(1, {z := 8, implH := some 2})], [(1, [])]⟩).toOption = some [("O", 1), ("H", 2)] := by decide +kernel
+
+/-! ## 7. agreement with the OpenSMILES normal valences (independent reference, `Spec/OrganicValence.lean`) -/
+
+/-- the first rule for `(0, False, v)` of element `z` is unconditional and assigns `h` -/
+def headRuleIs (z v h : Nat) : Bool :=
+  match tableOf z with
+  | some t => match valenceRules t 0 false v with
+    | some (q :: _) => q.set.isEmpty && q.dict.isEmpty && q.h == h
+    | _ => false
+  | none => false
+
+theorem calc_of_headRule (z : Nat) (bs : List BE) (h : Nat) (hz : z ≠ 1) (ha : aromaCount bs = 0)
+    (hh : headRuleIs z (explicitSum bs) h = true) : calcImplicit ⟨z, 0, false, bs⟩ = some (some h) := by
+  simp only [headRuleIs] at hh
+  cases ht : tableOf z with
+  | none => simp [ht] at hh
+  | some t =>
+    simp only [ht] at hh
+    cases hv : valenceRules t 0 false (explicitSum bs) with
+    | none => simp [hv] at hh
+    | some rules =>
+      cases rules with
+      | nil => simp [hv] at hh
+      | cons q tl =>
+        simp only [hv, Bool.and_eq_true, List.isEmpty_iff, beq_iff_eq] at hh
+        obtain ⟨⟨h1, h2⟩, h3⟩ := hh
+        have hz' : (z == 1) = false := by simp [hz]
+        have hm : ruleMatches (explicitDict bs) q = true := by simp [ruleMatches, h1, h2]
+        simp [calcImplicit, ht, calcWith, hz', ha, hv, firstRule, hm, h3]
+
+theorem organic_heads :
+    ∀ zv ∈ OrganicValence.normalValences, ∀ v0 ∈ zv.2.head?, ∀ v ∈ List.range (v0 + 1),
+      headRuleIs zv.1 v (v0 - v) = true := by decide +kernel
+
+/-- **Reference theorem.** For every element of the organic subset, neutral and not a radical, with localised bonds
+    (any neighbours, any number of bonds) whose orders sum to at most the lowest normal valence, `calc_implicit`
+    assigns exactly the hydrogens the OpenSMILES standard prescribes. -/
+theorem organic_subset_reference (z : Nat) (hz : z ∈ OrganicValence.organicSubset) (bs : List BE)
+    (ha : aromaCount bs = 0) (h : Nat) (hs : OrganicValence.hydrogens z (explicitSum bs) = some h) :
+    calcImplicit ⟨z, 0, false, bs⟩ = some (some h) := by
+  simp only [OrganicValence.organicSubset, List.mem_map] at hz
+  obtain ⟨zv, hzv, rfl⟩ := hz
+  have hfacts : ∀ zv ∈ OrganicValence.normalValences, zv.1 ≠ 1 ∧ OrganicValence.lowest zv.1 = zv.2.head? := by
+    decide
+  have hne : zv.1 ≠ 1 := (hfacts zv hzv).1
+  have hlow : ∀ v0, OrganicValence.lowest zv.1 = some v0 → v0 ∈ zv.2.head? := by
+    intro v0 e
+    rw [← (hfacts zv hzv).2, e]
+    rfl
+  simp only [OrganicValence.hydrogens] at hs
+  cases hl : OrganicValence.lowest zv.1 with
+  | none => simp [hl] at hs
+  | some v0 =>
+    simp only [hl, Option.bind_some] at hs
+    by_cases hle : explicitSum bs ≤ v0
+    · simp only [hle, if_true, Option.some.injEq] at hs
+      subst hs
+      exact calc_of_headRule zv.1 bs _ hne ha
+        (organic_heads zv hzv v0 (hlow v0 hl) (explicitSum bs) (by simp; omega))
+    · simp [hle] at hs
+
+example : calcImplicit ⟨7, 0, false, [(1, 6), (1, 6)]⟩ = some (some 1) :=
+  organic_subset_reference 7 (by decide) _ (by decide) 1 (by decide)
+
+/-- every rule list reachable by a neutral non-radical atom of `z` only realises valences accepted by `ok` —
+    either through its unconditional first rule or through every rule -/
+def neutralRulesWithin (z : Nat) (ok : Nat → Bool) : Bool :=
+  match tableOf z with
+  | none => false
+  | some t => t.all fun krs =>
+      !(krs.1.1 == 0 && !krs.1.2.1) ||
+      (match krs.2 with
+        | q :: _ => q.set.isEmpty && q.dict.isEmpty && ok (krs.1.2.2 + q.h)
+        | [] => false) ||
+      krs.2.all fun q => ok (krs.1.2.2 + q.h)
+
+theorem within_of_neutralRules (z : Nat) (ok : Nat → Bool) (hw : neutralRulesWithin z ok = true) (hz : z ≠ 1)
+    (bs : List BE) (ha : aromaCount bs = 0) (h : Nat) (hc : calcImplicit ⟨z, 0, false, bs⟩ = some (some h)) :
+    ok (explicitSum bs + h) = true := by
+  simp only [neutralRulesWithin] at hw
+  cases ht : tableOf z with
+  | none => simp [ht] at hw
+  | some t =>
+    simp only [ht] at hw
+    simp only [calcImplicit, ht, Option.map_some, Option.some.injEq] at hc
+    obtain ⟨rules, q, hv, hfirst, eh⟩ := (calc_first_rule t ⟨z, 0, false, bs⟩ hz ha h).mp hc
+    have hmem := lookup_mem t _ _ hv
+    have := List.all_eq_true.mp hw _ hmem
+    simp only [beq_self_eq_true, Bool.not_false, Bool.and_self, Bool.not_true, Bool.false_or, Bool.or_eq_true] at this
+    obtain ⟨pre, post, e, hm, hpre⟩ := hfirst
+    cases this with
+    | inl hhead =>
+      cases pre with
+      | nil =>
+        simp only [List.nil_append] at e
+        simp only [e, Bool.and_eq_true] at hhead
+        rw [← eh]; exact hhead.2
+      | cons p pre' =>
+        simp only [List.cons_append] at e
+        simp only [e, Bool.and_eq_true, List.isEmpty_iff] at hhead
+        have : EnvMet bs p.set p.dict := by simp [EnvMet, hhead.1.1, hhead.1.2]
+        exact absurd this (hpre p (by simp))
+    | inr hall =>
+      have := List.all_eq_true.mp hall q (by simp [e])
+      rw [← eh]; exact this
+
+/-- **Soundness against the standard.** Whatever hydrogen count `calc_implicit` assigns to a neutral, non-radical
+    B, C, N, O, F, P or S atom with localised bonds — through a common valence *or through any of the
+    environment-specific exceptions* — the resulting total valence is one of the element's OpenSMILES normal valences. -/
+theorem organic_normal_valence_sound (z : Nat) (hz : z ∈ [5, 6, 7, 8, 9, 15, 16]) (bs : List BE)
+    (ha : aromaCount bs = 0) (h : Nat) (hc : calcImplicit ⟨z, 0, false, bs⟩ = some (some h)) :
+    OrganicValence.isNormal z (explicitSum bs + h) = true := by
+  have hw : ∀ z ∈ [5, 6, 7, 8, 9, 15, 16], neutralRulesWithin z (OrganicValence.isNormal z) = true ∧ z ≠ 1 := by
+    decide +kernel
+  exact within_of_neutralRules z _ (hw z hz).1 (hw z hz).2 bs ha h hc
+
+/-- Cl, Br, I: every accepted neutral non-radical state has valence 1, 3, 5 or 7 (hypervalent oxo-acid states exist
+    only through exceptions; OpenSMILES lists 1 only, which `organic_subset_reference` covers). -/
+theorem halogen_valences_odd (z : Nat) (hz : z ∈ [17, 35, 53]) (bs : List BE)
+    (ha : aromaCount bs = 0) (h : Nat) (hc : calcImplicit ⟨z, 0, false, bs⟩ = some (some h)) :
+    OrganicValence.halogenValences.contains (explicitSum bs + h) = true := by
+  have hw : ∀ z ∈ [17, 35, 53], neutralRulesWithin z (OrganicValence.halogenValences.contains ·) = true ∧ z ≠ 1 := by
+    decide +kernel
+  exact within_of_neutralRules z _ (hw z hz).1 (hw z hz).2 bs ha h hc
+
+/-- the table of `z` has no entry for a neutral non-radical atom whose bond orders sum to more than `v0` -/
+def noNeutralAbove (z v0 : Nat) : Bool :=
+  match tableOf z with
+  | none => false
+  | some t => t.all fun krs => !(krs.1.1 == 0 && !krs.1.2.1) || decide (krs.1.2.2 ≤ v0)
+
+/-- **Second-period exactness.** For neutral non-radical B, C, N, O, F with localised bonds the model is *exactly* the
+    standard: `normal valence − Σ orders` hydrogens when that is non-negative, a valence error otherwise. -/
+theorem second_period_exact (z : Nat) (hz : z ∈ [5, 6, 7, 8, 9]) (bs : List BE) (ha : aromaCount bs = 0) :
+    calcImplicit ⟨z, 0, false, bs⟩ = some (OrganicValence.hydrogens z (explicitSum bs)) := by
+  have hsub : ∀ z ∈ [5, 6, 7, 8, 9], z ∈ OrganicValence.organicSubset ∧
+      ∃ v0, OrganicValence.lowest z = some v0 ∧ noNeutralAbove z v0 = true := by decide +kernel
+  obtain ⟨hmem, v0, hl, hno⟩ := hsub z hz
+  cases hh : OrganicValence.hydrogens z (explicitSum bs) with
+  | some h => exact organic_subset_reference z hmem bs ha h hh
+  | none =>
+    have hgt : ¬ explicitSum bs ≤ v0 := by
+      intro hle
+      simp [OrganicValence.hydrogens, hl, hle] at hh
+    simp only [noNeutralAbove] at hno
+    cases ht : tableOf z with
+    | none => simp [ht] at hno
+    | some t =>
+      simp only [ht] at hno
+      have hz1 : (z == 1) = false := by
+        have : ∀ z ∈ [5, 6, 7, 8, 9], (z == 1) = false := by decide
+        exact this z hz
+      have hv : valenceRules t 0 false (explicitSum bs) = none := by
+        apply lookup_none_of_all
+        intro p hp e
+        have := List.all_eq_true.mp hno p hp
+        rw [e] at this
+        simp at this
+        exact hgt this
+      simp [calcImplicit, ht, calcWith, hz1, ha, hv]
+
+example : calcImplicit ⟨6, 0, false, [(2, 8), (2, 8), (1, 1)]⟩ = some none :=
+  second_period_exact 6 (by decide) _ (by decide)
 
 end ChythonModel.Props.C04
